@@ -20,7 +20,7 @@ ANCHORS = ["State.__eq__", "Lanelet.__eq__", "Obstacle.__eq__", "Obstacle.__hash
            "Scenario.__eq__", "Rectangle.__eq__", "GoalRegion.__eq__", "TrajectoryPrediction.__eq__",
            "TrafficSign.__eq__", "Intersection.__eq__"]
 REQUIRED = ["law.reflexive", "law.deepcopy", "law.symmetric", "law.twin", "law.perturbation", "law.hash-total",
-            "law.hash-consistent", "defaults-instance", "law.kwargs-order", "law.cross-class-state",
+            "law.hash-consistent", "defaults-instance", "law.kwargs-order", "law.cross-class-state", "law.optional-subsets",
             "class.Polygon.large", "class.Lanelet.large"]
 ASSUMPTIONS = ["perturbations are clearly different valid values (never a reordering or a duplicate)",
                "real perturbations are >= 1e-6, i.e. far above the documented 1e-10 resolution"]
@@ -586,6 +586,41 @@ def run(ctx):
                     h2 = safe(hash, cs[1])
                     if h2[0] == "ok" and h2[1] != h[1]:
                         V("equal-but-hash-differs", "custom-state-with-same-attributes")
+        # L7 every optional argument on its own / left out on its own (one-sided combinations of optional arguments):
+        # such objects are built through the public constructor too, so ==, hash and deepcopy must work on them
+        if not use_defaults and k % 2 == 1:
+            g7 = Gen(random.Random(seed))
+            ctor7, kw7, dflt7 = make(g7)
+            if dflt7 is not None:
+                optional = [p_ for p_ in kw7 if p_ not in dflt7]
+                variants = [("only-" + p_, dict(dflt7, **{p_: kw7[p_]})) for p_ in optional] + \
+                           [("without-" + p_, {q_: v_ for q_, v_ in kw7.items() if q_ != p_}) for p_ in optional]
+                for vname, vkw in variants:
+                    z = safe(lambda: ctor7(**vkw))
+                    if z[0] == "exc":
+                        ctx.counter("optional-subset-not-constructible")
+                        continue
+                    ctx.evaluation()
+                    ctx.feature("law.optional-subsets")
+                    what = vname.split("-", 1)
+                    r = eq_ops(z[1], z[1])
+                    if r[0] == "exc":
+                        V("eq-raises-%s/%s" % (type(r[1]).__name__, what[0]), repr(r[1]), what[1])
+                        continue
+                    if r[1] != (True, True, False, False):
+                        V("not-reflexive/" + what[0], "x==x -> %s" % (r[1],), what[1])
+                    hz = safe(hash, z[1])
+                    if hz[0] == "exc":
+                        V("hash-raises-%s/%s" % (type(hz[1]).__name__, what[0]), repr(hz[1]), what[1])
+                    cz = safe(copy.deepcopy, z[1])
+                    if cz[0] == "ok":
+                        r = eq_ops(z[1], cz[1])
+                        if r[0] == "ok" and r[1] != (True, True, False, False):
+                            V("deepcopy-not-equal/" + what[0], "x==deepcopy(x) -> %s" % (r[1],), what[1])
+                        elif r[0] == "ok" and hz[0] == "ok":
+                            h2 = safe(hash, cz[1])
+                            if h2[0] == "ok" and h2[1] != hz[1]:
+                                V("equal-but-hash-differs/" + what[0], "deepcopy", what[1])
         # L5 single perturbations (populated instances only: for the all-defaults instance the harness does not know
         # which values differ from the constructor defaults, so only reflexivity / deepcopy / hash laws are judged)
         if use_defaults:
